@@ -87,6 +87,23 @@ def queue_ops(f):
                     if q:
                         yield i, q, n['n']; break
 
+def only_called_from_pred(F, f, pred, depth=0):
+    """like only_called_from with a predicate on the calling function"""
+    if not hasattr(F, '_callers'):
+        F._callers = {}
+        for g in F.funcs:
+            if not g.blocks: continue
+            for i, n in g.calls():
+                if 'fk' in n: F._callers.setdefault(n['fk'], set()).add(g.k)
+    cs = F._callers.get(f.k, set())
+    if not cs or depth > 2: return False
+    for ck in cs:
+        g = F.bykey.get(ck)
+        if g is None: return False
+        if pred(g): continue
+        if not only_called_from_pred(F, g, pred, depth + 1): return False
+    return True
+
 def only_called_from(F, f, allowed, depth=0):
     """a helper extracted from role functions keeps their role: f is called at least once and every caller is a role function (or such a
     helper itself); resolved callees, same translation unit"""
